@@ -77,6 +77,17 @@ func (m OutMessage) Terminal() bool {
 
 // ParseOutput reads hello + runtime messages until the first undecodable frame or the end of the bytes.
 func ParseOutput(b []byte) (hello *atp.HelloMessage, helloLen int, msgs []OutMessage, trailing error) {
+	return parseOutput(b, false)
+}
+
+// ParseOutputLenient is ParseOutput for streams that may contain garbage: a well-formed frame whose payload does not
+// decode as the message its ID announces is skipped instead of ending the reading (the frames behind it are still
+// frames a reader may act on).
+func ParseOutputLenient(b []byte) (hello *atp.HelloMessage, helloLen int, msgs []OutMessage, trailing error) {
+	return parseOutput(b, true)
+}
+
+func parseOutput(b []byte, lenient bool) (hello *atp.HelloMessage, helloLen int, msgs []OutMessage, trailing error) {
 	dec := cbor.NewDecoder(bytes.NewReader(b))
 	var h atp.HelloMessage
 	if err := dec.Decode(&h); err != nil {
@@ -101,18 +112,27 @@ func ParseOutput(b []byte) (hello *atp.HelloMessage, helloLen int, msgs []OutMes
 		case atp.MessageTypeWorkDone:
 			var wd atp.WorkDoneMessage
 			if err := cbor.Unmarshal(m.RawMessageData, &wd); err != nil {
+				if lenient {
+					continue
+				}
 				return hello, helloLen, msgs, fmt.Errorf("work-done payload: %w", err)
 			}
 			om.StepID, om.OutputID, om.OutputData = wd.StepID, wd.OutputID, wd.OutputData
 		case atp.MessageTypeError:
 			var em atp.ErrorMessage
 			if err := cbor.Unmarshal(m.RawMessageData, &em); err != nil {
+				if lenient {
+					continue
+				}
 				return hello, helloLen, msgs, fmt.Errorf("error payload: %w", err)
 			}
 			om.Error, om.StepFatal, om.ServerFatal = em.Error, em.StepFatal, em.ServerFatal
 		case atp.MessageTypeSignal:
 			var sm atp.SignalMessage
 			if err := cbor.Unmarshal(m.RawMessageData, &sm); err != nil {
+				if lenient {
+					continue
+				}
 				return hello, helloLen, msgs, fmt.Errorf("signal payload: %w", err)
 			}
 			om.SignalID, om.Data = sm.SignalID, sm.Data
